@@ -14,7 +14,8 @@ from vlib import coqfmt as cf
 from props import tcp_common as T
 
 # the repairs present in /repo (coq/Tcp/Sender.v: current)
-FX = "current"
+import os
+FX = os.environ.get("VERIF_TCP_FX", "current")
 TOL = F(1, 10 ** 12)
 
 
